@@ -116,6 +116,8 @@ def gen(rng, tier, mult=1):
     for i in range(m):
         yield T.gen_transfer_case(rng, script_style=["abort", "abort", "faulty", "random"][i % 4], simple_cfg=True,
                                   bs_choices=[8, 16], fault=(i % 7 == 0))
+    for i in range(60 if tier == "quick" else 1500):
+        yield T.gen_multi_case(rng)
 
 
 import http_common  # noqa: E402
